@@ -681,7 +681,7 @@ class MultiIdSet(DocIdSet):
 
     def _document_set(self, n):
         offsets = self.offsets
-        return max(bisect_left(offsets, n), len(self.offsets) - 1)
+        return max(0, bisect_right(offsets, n) - 1)
 
     def _set_and_docnum(self, n):
         setnum = self._document_set(n)
